@@ -8,9 +8,6 @@ From TV Require Import Model.ParamSubst Proof.ParamSubstLex.
 Import ListNotations.
 Open Scope Z_scope.
 
-(* bytes after which a placeholder may stand: whitespace, `(` and `,` *)
-Definition is_sep_before (b : Z) : bool := is_ws b || (b =? 40) || (b =? 44).
-
 (* ---------------------------------------------------------------- count_while *)
 Lemma cw_len_iff p T c X :
   count_while p (T ++ c :: X) = length T <-> forallb p T = true /\ p c = false.
@@ -260,8 +257,6 @@ Proof.
           by (cbn [length]; lia).
         exact H.
 Qed.
-
-Definition look2 (c : Z) (X Y : list Z) : Prop := is_sep_before c = true \/ hd_error X = hd_error Y.
 
 Lemma dot_not_sep : is_sep_before 46 = false.
 Proof. reflexivity. Qed.
